@@ -64,7 +64,8 @@ Walk(ps, toks, ops, i) ==
   IF i > Len(ops) THEN [step |-> 0, why |-> ""]
   ELSE LET o == ops[i] IN
        IF o.op = "parse"
-       THEN IF ParseAllowed(ps, toks[o.t], o.k, o.obs) THEN Walk(ps, toks, ops, i + 1)
+       \* "late": the harness could not complete this parse within its time margin; it is not judged
+       THEN IF o.obs.res = "late" \/ ParseAllowed(ps, toks[o.t], o.k, o.obs) THEN Walk(ps, toks, ops, i + 1)
             ELSE [step |-> i, why |-> Why(ps, toks[o.t], o.k, o.obs)]
        ELSE Walk(PApply(ps, POp(o.op, o.k, o.v)), toks, ops, i + 1)
 
